@@ -12,7 +12,9 @@ class FuncV(object):
         return "%s:%s" % (self.module.name, self.node.name)
 
     def dyn_qualname(self):
-        if self.dyn_cls is not None:
+        # a contract registered under the DYNAMIC class applies only when that class dispatches to this very function
+        # (super().__init__() reached from Sub.__init__ is Base.__init__, not Sub.__init__ again)
+        if self.dyn_cls is not None and self.dyn_cls.find_method(self.node.name)[1] is self.node:
             return "%s:%s.%s" % (self.dyn_cls.module.name, self.dyn_cls.name, self.node.name)
         return self.qualname
 
